@@ -10,6 +10,7 @@ HARNESS = os.path.join(VERIF, "harness")
 SPEC = os.path.join(VERIF, "spec")
 TARGET = os.path.join(HARNESS, "target")
 WORK = os.path.join(TARGET, "verif-work")
+SHARED = WORK      # caches shared by all properties (bin/check gives every property its own WORK below it)
 REPLAYS = os.path.join(VERIF, "replays")
 EVIDENCE = os.path.join(VERIF, "evidence")
 BIN = os.path.join(TARGET, "release")
